@@ -31,7 +31,9 @@ inductive Ev where
   | loop (lhs op rhs : String)                   -- condition of a three-clause for
   | range (key val e : String)                   -- for key, val := range e
   | step (v op : String)                         -- v++ / v--
-  | store (lhs rhs : String)                     -- indexed store, swap, append, re-slice
+  | store (lhs rhs : String)                     -- append, re-slice, other indexed assignments
+  | slot (slice idx val : String)                -- slice[idx] = val
+  | swap (slice i j : String)                    -- slice[i], slice[j] = slice[j], slice[i]
   | call (fn args : String)
   deriving DecidableEq, Repr
 
@@ -155,6 +157,63 @@ def initAppends (evs : List Ev) (rooted : Bool) : Nat :=
 
 def graftAppends (evs : List Ev) : Nat := (storesTo (splitAtDefault evs).2 "edges").length
 
+/-! ### reading a loop through its meaning: the names of the local variables are found, not given -/
+
+/-- the loop counter: the variable the first `Intn` bound is written with -/
+def counterOf (evs : List Ev) : String :=
+  (evs.findSome? fun e => match e with | .draw _ (.varPlus w _) => some w | _ => none).getD ""
+
+/-- the counter advances by one per iteration: `w++` in the body, or `w` is the key of a range loop -/
+def advances (evs : List Ev) (w : String) : Bool :=
+  evs.any fun e => match e with
+    | .step v op => v == w && op == "++"
+    | .range k _ _ => k == w
+    | _ => false
+
+/-- the capacity `K` of the test `counter < K` -/
+def capOf (evs : List Ev) (w : String) : Option String :=
+  evs.findSome? fun e => match e with
+    | .cond a o b => if a == w && o == "<" then some b else if b == w && o == ">" then some a else none
+    | _ => none
+
+/-- the variable of a counted loop: the one stepped by `++` -/
+def counterOf' (evs : List Ev) : String :=
+  (evs.findSome? fun e => match e with | .step v op => if op == "++" then some v else none | _ => none).getD ""
+
+def slots (evs : List Ev) : List (String × String × String) :=
+  evs.filterMap fun e => match e with | .slot x i v => some (x, i, v) | _ => none
+
+def swaps (evs : List Ev) : List (String × String × String) :=
+  evs.filterMap fun e => match e with | .swap x i j => some (x, i, j) | _ => none
+
+/-- a reservoir without replacement (resLoop / resScript (· + 1)): the counter `c` advances by one per item; while
+    `c < K` the item goes to slot `c`; otherwise ONE `Intn(c + 1)` (c = the value when the iteration starts) and
+    the SAME value goes to slot `$draw` of the SAME slice iff `$draw < K` -/
+def reservoirOK (evs : List Ev) : Bool :=
+  let c := counterOf evs
+  c != "" && advances evs c && drawsOf c evs 0 == [("Intn", .counter 1)] &&
+  match capOf evs c with
+  | none => false
+  | some K => hasCond evs "$draw" "<" K &&
+      (slots evs).any fun (x, i, v) => i == c && (slots evs).any fun (x', i', v') => x' == x && i' == "$draw" && v' == v
+
+/-- the loop with replacement (replRow / replScript): per slot `j < K` ONE `Intn(t + 1)` for the `t`-th item
+    (0-based), the item goes to slot `j` iff the draw is `0` -/
+def replaceOK (evs : List Ev) : Bool :=
+  let c := counterOf evs
+  c != "" && advances evs c && drawsOf c evs 0 == [("Intn", .counter 1)] && hasCond evs "$draw" "==" "0" &&
+  evs.any fun e => match e with
+    | .loop j o _ => o == "<" && j != c && (slots evs).any fun (_, i, _) => i == j
+    | _ => false
+
+/-- Fisher-Yates over the neighbours (rotLoop / rotScript): counter = key of the range loop, `Intn(i + 1)`,
+    `neigh` and `br` both swapped at (i, $draw), no test -/
+def rotateOK (evs : List Ev) : Bool :=
+  let c := counterOf evs
+  c != "" && advances evs c && drawsOf c evs 0 == [("Intn", .counter 1)] &&
+  swaps evs == [("n.neigh", c, "$draw"), ("n.br", c, "$draw")] &&
+  evs.all fun e => match e with | .cond _ _ _ => false | .slot _ _ _ => false | .store _ _ => false | _ => true
+
 /-- the rows of the model that come from the source:
 
   * `sample` without `--replace` (reservoir / resScript (· + 1)): fill while `totaltrees < numtrees`, else ONE
@@ -173,7 +232,7 @@ def graftAppends (evs : List Ev) : Nat := (storesTo (splitAtDefault evs).2 "edge
     then by `newedge` and `newedge2` for every grafted tip; `nbtips < 3` refused; `RerootFirst` iff `!rooted`
   * options: `--nbtrees` Int 1, `--replace` Bool false, `--random` Int 0, `--revert` Bool false, `--seed` Int64 -1
     (`-1` = clock), `rand.Seed(seed)` -/
-def tableOK (ss : List Site) (os : List Opt) : Bool :=
+def tableOK (ss : List Site) (os : List Opt) (cs : List (String × List String)) : Bool :=
   let nr := siteEvs ss "sample.noreplace"
   let rp := siteEvs ss "sample.replace"
   let sm := siteEvs ss "sample"
@@ -186,18 +245,15 @@ def tableOK (ss : List Site) (os : List Opt) : Bool :=
   let ut := siteEvs ss "RandomUniformBinaryTree"
   let ro := siteEvs ss "root"
   -- sample
-  drawsOf "totaltrees" nr 0 == [("Intn", .counter 1)]
-  && hasCond nr "totaltrees" "<" "numtrees" && hasCond nr "$draw" "<" "numtrees"
-  && hasStore nr "outtrees[totaltrees]" "t.Tree" && hasStore nr "outtrees[$draw]" "t.Tree"
-  && drawsOf "totaltrees" rp 0 == [("Intn", .counter 1)]
-  && hasLoop rp "j" "<" "numtrees" && hasCond rp "$draw" "==" "0" && hasStore rp "outtrees[j]" "t.Tree"
-  && hasCond sm "numtrees" "<" "0" && callArgs sm "make" == ["[]*tree.Tree, numtrees"]
-  && (drawsOf "totaltrees" sm 0).length == 2
+  reservoirOK nr && replaceOK rp
+  -- the same capacity in both loops, refused when negative, and the size of the slice made before
+  && (match capOf nr (counterOf nr) with
+      | none => false
+      | some K => hasLoop rp (rp.findSome? (fun e => match e with | .loop j _ _ => some j | _ => none) |>.getD "") "<" K
+          && hasCond sm K "<" "0" && callArgs sm "make" == ["[]*tree.Tree, " ++ K])
+  && (drawsOf (counterOf sm) sm 0).length == 2
   -- randomTips / prune
-  && drawsOf "i" rt 0 == [("Intn", .counter 1)]
-  && hasCond rt "i" "<" "n" && hasCond rt "$draw" "<" "n"
-  && hasStore rt "sampled[i]" "tip.Name()" && hasStore rt "sampled[$draw]" "tip.Name()"
-  && rangesWith rt "i" && callNames rt ["Tips", "AllTipNames", "Nodes"] == ["Tips"]
+  && reservoirOK rt && rangesWith rt (counterOf rt) && callNames rt ["Tips", "AllTipNames", "Nodes"] == ["Tips"]
   && optLt (condIdx pr "tipfile" "!=" "\"none\"") (condIdx pr "comptree" "!=" "nil")
   && optLt (condIdx pr "comptree" "!=" "nil") (condIdx pr "randomtips" ">" "0")
   && optSucc (condIdx pr "randomtips" ">" "0") (callIdx pr "randomTips" "reftree.Tree, randomtips")
@@ -207,27 +263,41 @@ def tableOK (ss : List Site) (os : List Opt) : Bool :=
   && drawsOf "" sh 0 == [("Perm", .len "names")]
   && callNames sh ["Tips", "AllTipNames", "SetName"] == ["Tips", "AllTipNames", "SetName"]
   && callArgs sh "SetName" == ["names[p]"]
+  && (siteEvs ss "shuffletips").filterMap (fun e => match e with | .range _ _ x => some x | .call f _ => some f | _ => none)
+       == ["treechan", "ShuffleTips", "Newick"]
   && sh.any (fun e => match e with | .range k v x => k == "i" && v == "p" && x == "$draw" | _ => false)
   && (sh.all fun e => match e with | .cond _ _ _ => false | .store _ _ => false | _ => true)
   -- rotations
-  && drawsOf "i" rn 0 == [("Intn", .counter 1)]
-  && hasStore rn "n.neigh[i], n.neigh[$draw]" "n.neigh[$draw], n.neigh[i]" && hasStore rn "n.br[i], n.br[$draw]" "n.br[$draw], n.br[i]"
-  && (rn.all fun e => match e with | .cond _ _ _ => false | _ => true)
+  && rotateOK rn && rangesWith rn (counterOf rn)
   && callNames ri ["Nodes", "RotateNeighbors"] == ["Nodes", "RotateNeighbors"]
+  && (siteEvs ss "rotaterand").filterMap (fun e => match e with | .range _ _ x => some x | .call f _ => some f | _ => none)
+       == ["treechan", "RotateInternalNodes", "Newick"]
   && (ri.all fun e => match e with | .cond _ _ _ => false | _ => true)
   -- uniform tree
-  && drawsOf "" ut 0 == [("Intn", .len "edges")]
+  -- the draws in source order are the model's script: Exp [, Exp when rooted], then per tip Intn(len(edges)), Exp, Exp, Exp
+  && (drawsOf "" ut 0).map (·.1) == ["gostats.Exp", "gostats.Exp", "Intn", "gostats.Exp", "gostats.Exp", "gostats.Exp"]
+  && (drawsOf "" ut 0).filter (·.1 == "Intn") == [("Intn", .len "edges")]
   && storesTo ut "edges" == ["append(edges, e)", "append(edges, e2)", "append(edges, newedge)", "append(edges, newedge2)"]
   && hasCond ut "nbtips" "<" "3"
   && optLt (condIdx ut "rooted" "" "") (firstIdx ut fun e => e == .store "edges" "append(edges, e2)")
   && optLt (firstIdx ut fun e => e == .store "edges" "append(edges, e2)") (condIdx ut "default" "case" "")
   && optLt (condIdx ut "!rooted" "" "") (callIdx ut "RerootFirst" "")
   && callArgs ut "GraftTipOnEdge" == ["n, e"]
+  -- `generate uniformtree -n N`: N calls in a counted loop, nothing else draws
+  && (let uc := siteEvs ss "uniformtree"
+      hasLoop uc (counterOf' uc) "<" "nbtrees" && callArgs uc "RandomUniformBinaryTree" == ["nbtips, rooted"]
+      && (drawsOf "" uc 0).isEmpty)
+  && callArgs (siteEvs ss "uniformtree.run") "uniformTree" == ["generateNbTrees, generateNbTips, generateOutputfile, generateRooted"]
   -- options and the seed
   && optIs os "cmd/sample.go" "nbtrees" "Int" "1" && optIs os "cmd/sample.go" "replace" "Bool" "false"
   && optIs os "cmd/prune.go" "random" "Int" "0" && optIs os "cmd/prune.go" "revert" "Bool" "false"
   && optIs os "cmd/prune.go" "tipfile" "String" "none" && optIs os "cmd/prune.go" "comp" "String" "none"
   && optIs os "cmd/root.go" "seed" "Int64" "-1"
   && hasCond ro "seed" "==" "-1" && callArgs ro "Seed" == ["seed"]
+  -- every function that draws on the paths of the five commands (static calls inside packages cmd and tree,
+  -- math/rand resolved through the type checker whatever its local name, gostats.Exp = one Float64)
+  && cs == [("sample", ["cmd.sampleCmd.RunE:Intn"]), ("prune", ["cmd.randomTips:Intn"]),
+            ("shuffletips", ["tree.Tree.ShuffleTips:Perm"]), ("rotate rand", ["tree.Node.RotateNeighbors:Intn"]),
+            ("generate uniformtree", ["tree.RandomUniformBinaryTree:Intn", "tree.RandomUniformBinaryTree:gostats.Exp"])]
 
 end Gotree.C20
